@@ -133,9 +133,12 @@ func validReferenceName(name plumbing.ReferenceName) error {
 		}
 	}
 	for _, part := range strings.FieldsFunc(s, isPathSep) {
-		// IsNTFSDot/IsHFSDot with a "." needle match ".." and its disguises
-		// but not a bare ".", so reject that component explicitly too.
-		if part == "." || pathutil.IsHFSDot(part, ".") || pathutil.IsNTFSDot(part, ".", "") {
+		// IsNTFSDot/IsHFSDot with a "." needle match ".." and its disguises;
+		// with an empty needle they match "." and its disguises (". ", ".:x",
+		// "." followed by ignorable code points), which alias the directory
+		// the component is in.
+		if pathutil.IsHFSDot(part, "") || pathutil.IsNTFSDot(part, "", "") ||
+			pathutil.IsHFSDot(part, ".") || pathutil.IsNTFSDot(part, ".", "") {
 			return fmt.Errorf("%w: %q", ErrReferenceNameEscape, s)
 		}
 	}
